@@ -231,6 +231,10 @@ def run_check(pid, tier, seed, replay=None, budget_s=None):
         "trusted_base": prop.TRUSTED_BASE + [
             "Lean 4 kernel; axioms allowed: propext, Classical.choice, Quot.sound (audited per theorem by #print axioms)",
             "hand-written model fidelity as far as the correspondence run establishes it; Rust driver /verif/harness; orchestrator /verif/vlib",
+            "translator /verif/translate: constants, interval expressions, configuration rules and comparison guards are regenerated from /repo's sources on this run "
+            "(a source shape the translator cannot match is a broken obligation, never a silent default)",
+            "not verified: ring (Ed25519, X25519, AEAD, SHA-2, PBKDF2, RNG), Rust std, serde_yaml, structopt; not modelled: GenericCloud::run (epoll loop), real sockets and devices, DNS, "
+            "port forwarding, statistics, beacon file/command I/O, memory safety",
         ],
         "obligation_list": [{"name": o["name"], "ok": o["ok"]} for o in obligations],
         "theorem_axioms": {t: axioms.get(t) for t in prop.THEOREMS},
